@@ -25,6 +25,7 @@ def sKwargs : Str := ['k','w','a','r','g','s']
 def sRetName : Str := ['r','e','t','u','r','n','_','t','y','p','e']
 def sOptSuffix : Str := [',',' ','o','p','t','i','o','n','a','l']
 def sOptionalW : Str := ['O','p','t','i','o','n','a','l']
+def sPOptionalW : Str := ['(','O','p','t','i','o','n','a','l',')']
 def sDefaultsU : Str := ['D','e','f','a','u','l','t','s']
 def sDefaultsL : Str := ['d','e','f','a','u','l','t','s']
 
@@ -37,15 +38,16 @@ def noEarlyB (pat : Str) : Str → Bool
   | c :: cs => !pat.isPrefixOf (c :: cs ++ pat) && noEarlyB pat cs
 
 /-- **descriptions**: non-empty, one line, no ReST token inside, no blank at either end, no `Defaults`/`defaults`, no announce
-    phrase (any of the 8 `DEFAULTS_TO_VARIANTS`, case-insensitively), no `(`, the emitted phrase ` Defaults to ` is the
-    first `defaults to ` of the completed line (`C01.GoodBase`), does not start with `Optional` -/
+    phrase (any of the 8 `DEFAULTS_TO_VARIANTS`, case-insensitively; neither bare nor after `(`), the emitted phrase
+    ` Defaults to ` is the first `defaults to ` of the completed line (`Doc.NoEarly`, as in `C01.GoodBase`), does not start
+    with `Optional` or `(Optional)` -/
 def goodDescB (d : Str) : Bool :=
   !d.isEmpty && oneLineB d && noTokB d && headNSB d && lastNSB d
   && !contains d sDefaultsU && !contains d sDefaultsL
   && announceVariants.all (fun v => (find (lower d) (lower v)).isNone)
-  && !(lower d).contains '('
+  && announceVariants.all (fun v => !contains (lower d) ('(' :: lower v))
   && noEarlyB C01.ann (lower (C01.baseOf d) ++ [' '])
-  && !startsWith d sOptionalW
+  && !startsWith d sOptionalW && !startsWith d sPOptionalW
 
 /-- **types**: non-empty, one line without colon or backtick, not ending in `, optional` -/
 def goodTypB (t : Str) : Bool := !t.isEmpty && t.all typC && !endsWith t sOptSuffix
@@ -141,23 +143,19 @@ theorem not_contains_char (s : Str) (c : Char) (h : (!s.contains c) = true) : c 
 
 theorem goodDesc_sound (d : Str) (h : goodDescB d = true) : GoodDesc d := by
   simp only [goodDescB, Bool.and_eq_true] at h
-  obtain ⟨⟨⟨⟨⟨⟨⟨⟨⟨⟨h1, h2⟩, h2'⟩, h3⟩, h4⟩, h5⟩, h6⟩, h7⟩, h8⟩, h9⟩, h10⟩ := h
-  have hparen : '(' ∉ lower d := not_contains_char _ _ h8
-  refine ⟨?_, oneLineB_sound d h2, noTokB_sound d h2', headNSB_sound d h3, lastNSB_sound d h4, ?_, ?_, ?_, hparen,
-    ⟨?_, noEarlyB_sound _ _ h9⟩, ?_⟩
+  obtain ⟨⟨⟨⟨⟨⟨⟨⟨⟨⟨⟨h1, h2⟩, h2'⟩, h3⟩, h4⟩, h5⟩, h6⟩, h7⟩, h8⟩, h9⟩, h10⟩, h11⟩ := h
+  refine ⟨?_, oneLineB_sound d h2, noTokB_sound d h2', headNSB_sound d h3, lastNSB_sound d h4, ?_, ?_, ?_, ?_,
+    noEarlyB_sound _ _ h9, ?_, ?_⟩
   · rintro rfl; simp at h1
   · rw [lit_Defaults]; simpa using h5
   · rw [lit_defaults]; simpa using h6
   · intro v hv
     have := List.all_eq_true.mp h7 v hv
     simpa using this
-  · rcases baseOf_cases d with e | e
-    · rw [e]; exact hparen
-    · rw [e, C01.lower_append]
-      intro hm
-      rcases List.mem_append.mp hm with hm | hm
-      · exact hparen hm
-      · revert hm; decide
+  · intro v hv
+    have := List.all_eq_true.mp h8 v hv
+    simpa using this
+  · simpa [sPOptionalW] using h11
   · simpa [sOptionalW] using h10
 
 theorem goodTyp_sound (t : Str) (h : goodTypB t = true) : GoodTyp t := by
